@@ -70,10 +70,10 @@ def run_variant(args):
 
 def global_twins(ctx, prop):
     """behaviour-preserving whole-tree transformations every check must stay silent on"""
-    from .transforms import alpha_rename, flip_ifs, reformat
+    from .transforms import alpha_rename, document, flip_ifs, reformat
     out = []
     for name, fn in (("twin-whole-tree-reformatted", reformat), ("twin-all-locals-renamed", alpha_rename),
-                     ("twin-two-armed-ifs-flipped", flip_ifs)):
+                     ("twin-two-armed-ifs-flipped", flip_ifs), ("twin-documented-and-annotated", document)):
         ov = fn(ctx.repo)
         out.append(Variant(name, prop, [(rel, None, txt) for rel, txt in sorted(ov.items())], "silent"))
     return out
@@ -92,7 +92,7 @@ def run_selftest(ctx, chk, variants):
     st = {"variants": len(results), "ok": 0, "skipped": 0, "details": []}
     base_n = chk.extra.get("quick_obligations", len(chk.obligations))
     for name, status, info in results:
-        if status == "ok" and name.startswith("twin-") and name in ("twin-whole-tree-reformatted", "twin-all-locals-renamed", "twin-two-armed-ifs-flipped"):
+        if status == "ok" and name.startswith("twin-") and name in ("twin-whole-tree-reformatted", "twin-all-locals-renamed", "twin-two-armed-ifs-flipped", "twin-documented-and-annotated"):
             # a whole-tree twin must be examined exactly as the real tree is: fewer obligations mean a rule went vacuous
             import re as _re
             m = _re.search(r"obligations=(\d+)", info)
